@@ -136,6 +136,12 @@ def analyze_sfu(case, sm):
             res["oracle"].append("select-for-update failed without a lock conflict (%s)" % st.get("err_class"))
         if "SRollbackTo" not in evs:
             res["oracle"].append("lock conflict but no ROLLBACK TO SAVEPOINT / ROLLBACK was issued: local row locks stay")
+        ex = meta.get("extra") or {}
+        if ex.get("locks_pre") and not ex.get("wrote_first"):
+            pre = set(U.step_at(tr, ex["locks_pre"]).get("locks") or [])
+            post = set(U.step_at(tr, ex["locks_post"]).get("locks") or [])
+            if post - pre:
+                res["oracle"].append("the refused locking read still holds the row locks it took: %s" % sorted(post - pre))
     res["scase"] = "{| s_matched := %s; s_lockable := %s; s_journal := %s; s_rows := %s |}" % (
         coq_list([U.coq_vals(list(k)) for k in matched]), coq_bool(lockable), coq_list(evs),
         "None" if got is None else "Some %s" % coq_list([U.coq_vals(list(k)) for k in got]))
